@@ -1,8 +1,8 @@
 /-
 C07 — model of the mutators of a data-class instance.
 
-`Schema` (dict-based, utype/schema.py:222-517 after `fixes/C07-mutators.patch`) and `DataClass`
-(attribute-based, utype/parser/cls.py:259-343), hand-written branch for branch.  Tied to the code by the
+`Schema` (dict-based, utype/schema.py:228-538 after `fixes/C07-mutators.patch` and `fixes/C07-recompute-failure.patch`) and `DataClass`
+(attribute-based, utype/parser/cls.py:275-359), hand-written branch for branch.  Tied to the code by the
 correspondence run (harness/c07.py): the same operation sequences run on real instances and on `hrun`
 below and both views of every instance are compared after every operation.
 
@@ -49,13 +49,13 @@ end Map
 
 /-! ### declarations -/
 
-/-- One `ParserField` (parser/field.py:389-505), reduced to what the mutators read. -/
+/-- One `ParserField` (parser/field.py:389-504), reduced to what the mutators read. -/
 structure Field where
   attname    : String
   name       : String                 -- output key (`alias` or the attribute name)
   aliases    : List String            -- `all_aliases`: every key `get_field` resolves to this field
-  required   : Bool := false          -- `is_required` under `ignore_required=False` (field.py:803-812)
-  immutable  : Bool := false          -- field.py:520-524 (`Final` or `immutable=True`)
+  required   : Bool := false          -- `is_required` under `ignore_required=False` (field.py:821-830)
+  immutable  : Bool := false          -- field.py:521-524 (`Final` or `immutable=True`)
   noOutput   : Bool := false          -- `no_output=True`
   isProp     : Bool := false          -- a getter-only `@property` field
   deps       : List String := []      -- property: names of the fields it is computed from (declared order)
@@ -82,14 +82,16 @@ structure Cls where
 
 structure World (V : Type) where
   parse    : String → V → Option V        -- field name → raw value → converted (none: ParseError)
-  parseAdd : V → Option V                 -- typed addition (base.py:401-421)
-  getter   : String → List V → Option V   -- property name → dependency values → converted result (none: getter raised)
-  deferred : String → Option V            -- `get_default(defer=True)` of a field (field.py:768-796)
+  parseAdd : V → Option V                 -- typed addition (base.py:411-442)
+  getter   : String → List V → Option V   -- property name → dependency values → what the getter returns (none: it raised)
+  convert  : String → V → Option V        -- property name → getter result → converted to the declared return type (none: ParseError)
+  deferred : String → Option V            -- `get_default(defer=True)` of a field (field.py:786-814)
 
 /-- the instance: `dict` contents and `__dict__` -/
 structure State (V : Type) where
   data  : Map V
   attrs : Map V
+  deriving DecidableEq
 
 inductive Exc | update | delete | parse | key | attr
   deriving Repr, DecidableEq
@@ -113,12 +115,21 @@ inductive Op (V : Type) where
 
 variable {V : Type}
 
-/-- `parser.get_field(key)` (base.py:138-152) on a class whose alias sets are disjoint -/
+/-- the raw arguments an operation carries -/
+def Op.args : Op V → List V
+  | .setattr _ v => [v]
+  | .setitem _ v => [v]
+  | .setdefault _ v => [v]
+  | .update kvs => kvs.map (·.2)
+  | .ior kvs => kvs.map (·.2)
+  | _ => []
+
+/-- `parser.get_field(key)` (base.py:141-155) on a class whose alias sets are disjoint -/
 def getField (C : Cls) (k : String) : Option Field := C.fields.find? (fun f => f.aliases.contains k)
 
 def fieldByAtt (C : Cls) (a : String) : Option Field := C.fields.find? (fun f => f.attname == a)
 
-/-- `Schema.__field_getter__` for a declared (non-property) field, schema.py:283-307 -/
+/-- `Schema.__field_getter__` for a declared (non-property) field, schema.py:294-318 -/
 def fieldGet (W : World V) (s : State V) (f : Field) : Option V :=
   match s.data.get f.name with
   | some v => some v
@@ -127,12 +138,31 @@ def fieldGet (W : World V) (s : State V) (f : Field) : Option V :=
     | some v => some v
     | none => W.deferred f.name
 
-/-- `field.parse_output_value(field.property.fget(self))`: the getter reads its dependencies through
-the attribute view; an unavailable dependency raises AttributeError inside the getter -/
-def compute (C : Cls) (W : World V) (s : State V) (p : Field) : Option V :=
-  (p.deps.mapM (fun d => (getField C d).bind (fieldGet W s))).bind (W.getter p.name)
+/-- the three ways `field.parse_output_value(field.property.fget(self))` can end -/
+inductive Computed (V : Type) where
+  | raised                 -- the getter raised (an unreadable dependency raises AttributeError inside it)
+  | unconvertible          -- the getter's result does not convert to the declared return type
+  | value (v : V)
 
-/-- the attribute view `obj.<attname>`: `Schema.__field_getter__`, schema.py:283-307 (none: AttributeError) -/
+/-- the getter reads its dependencies through the attribute view (schema.py:244, 257-259) -/
+def compute3 (C : Cls) (W : World V) (s : State V) (p : Field) : Computed V :=
+  match p.deps.mapM (fun d => (getField C d).bind (fieldGet W s)) with
+  | none => .raised
+  | some xs =>
+    match W.getter p.name xs with
+    | none => .raised
+    | some raw =>
+      match W.convert p.name raw with
+      | none => .unconvertible
+      | some v => .value v
+
+/-- the value a property has now (none: reading it raises) -/
+def compute (C : Cls) (W : World V) (s : State V) (p : Field) : Option V :=
+  match compute3 C W s p with
+  | .value v => some v
+  | _ => none
+
+/-- the attribute view `obj.<attname>`: `Schema.__field_getter__`, schema.py:294-318 (none: AttributeError) -/
 def getattr (C : Cls) (W : World V) (s : State V) (f : Field) : Option V :=
   if f.isProp then
     match s.data.get f.name with
@@ -143,85 +173,108 @@ def getattr (C : Cls) (W : World V) (s : State V) (f : Field) : Option V :=
       | none => compute C W s f
   else fieldGet W s f
 
-/-- the early return of `__coerce_property__`, schema.py:226-238: some dependency is neither under the
+/-- the early return of `__coerce_property__`, schema.py:232-241: some dependency is neither under the
 keys nor (for a no_output dependency) in `__dict__` -/
 def blocked (C : Cls) (s : State V) (p : Field) : Bool :=
-  !(p.deps.all s.data.has) &&                                     -- :226
-    p.deps.any (fun d => !s.data.has d && (match getField C d with      -- :229-238
+  !(p.deps.all s.data.has) &&                                     -- :232
+    p.deps.any (fun d => !s.data.has d && (match getField C d with      -- :235-241
       | none => true
       | some df => !s.attrs.has df.attname))
 
-/-- `Schema.__coerce_property__`, schema.py:222-267 -/
-def coerce (C : Cls) (W : World V) (s : State V) (p : Field) : State V :=
-  if p.noOutput then s                                            -- :223
-  else if blocked C s p then s
-  else match compute C W s p with
-    | none => s                                                   -- :240-246 getter failed: warn, keep
-    | some v => { s with data := s.data.set p.name v }            -- :255-256
+/-- `Schema.__coerce_property__`, schema.py:228-278 (after `fixes/C07-recompute-failure.patch`).  The flag says
+that a ParseError left the function (the converted result is demanded on a `force_error` context; under
+`collect_errors` it is collected and raised by the caller's `raise_error()`, schema.py:363).
+Before the repair (`lg`) a stored value survived a raising getter. -/
+def coerce (lg : Bool) (C : Cls) (W : World V) (s : State V) (p : Field) : State V × Bool :=
+  if p.noOutput then (s, false)                                   -- :229-230
+  else if blocked C s p then (s, false)                           -- :232-241
+  else match compute3 C W s p with
+    | .raised =>                                                  -- :243-255 getter failed: warn,
+      (if lg then s else { s with data := s.data.del p.name }, false)   --   and drop the value it no longer matches
+    | .unconvertible => (s, true)                                 -- :257-259 → field.py:1036 handle_error
+    | .value v => ({ s with data := s.data.set p.name v }, false) -- :266-267
 
-/-- schema.py:343-348 -/
-def coerceDependants (C : Cls) (W : World V) (s : State V) (f : Field) : State V :=
-  f.dependants.foldl (fun s q =>
+/-- the dependants loop, schema.py:357-362: the first escaping error ends it -/
+def coerceList (lg : Bool) (C : Cls) (W : World V) : State V → List String → State V × Bool
+  | s, [] => (s, false)
+  | s, q :: qs =>
     match getField C q with
-    | some p => if p.isProp then coerce C W s p else s
-    | none => s) s
+    | some p =>
+      if p.isProp then
+        match coerce lg C W s p with
+        | (s', true) => (s', true)
+        | (s', false) => coerceList lg C W s' qs
+      else coerceList lg C W s qs
+    | none => coerceList lg C W s qs
 
-/-- `Schema.__field_setter__`, schema.py:316-348.  The context is made with `force_error` and `raise_error()`
-follows the conversion (:323-325), so `Options.collect_errors` makes no difference here. -/
-def fieldSetter (C : Cls) (W : World V) (s : State V) (f : Field) (v : V) : State V × Res V :=
-  if C.opts.immutable || f.immutable then (s, .err .update)       -- :317-321
+def coerceDependants (lg : Bool) (C : Cls) (W : World V) (s : State V) (f : Field) : State V × Bool :=
+  coerceList lg C W s f.dependants
+
+/-- `Schema.__field_setter__`, schema.py:327-369.  The context is made with `force_error` and `raise_error()`
+follows the conversion (:334-336), so `Options.collect_errors` makes no difference.  Assignment and
+recomputation take effect together or not at all (:338-369: the state is put back when anything raises);
+before the repair (`lg`) the error left the field already assigned. -/
+def fieldSetter (lg : Bool) (C : Cls) (W : World V) (s : State V) (f : Field) (v : V) : State V × Res V :=
+  if C.opts.immutable || f.immutable then (s, .err .update)       -- :328-332
   else if f.isProp then
     -- a getter-only property has no input type (the value passes `parse_value` unchanged) and no
-    -- setter: the assignment only forces a recomputation (:327-333)
-    (coerceDependants C W (coerce C W s f) f, .ok none)
-  else match W.parse f.name v with                                -- :323-325
+    -- setter: the assignment only forces a recomputation (:341-347)
+    match coerce lg C W s f with
+    | (s1, true) => (if lg then s1 else s, .err .parse)
+    | (s1, false) =>
+      match coerceDependants lg C W s1 f with
+      | (s2, true) => (if lg then s2 else s, .err .parse)
+      | (s2, false) => (s2, .ok none)
+  else match W.parse f.name v with                                -- :334-336
     | none => (s, .err .parse)
     | some pv =>
       let s1 : State V :=
-        if f.noOutput then { data := s.data.del f.name, attrs := s.attrs.set f.attname pv }   -- :335-339
-        else { s with data := s.data.set f.name pv }                                          -- :341
-      (coerceDependants C W s1 f, .ok none)
+        if f.noOutput then { data := s.data.del f.name, attrs := s.attrs.set f.attname pv }   -- :349-353
+        else { s with data := s.data.set f.name pv }                                          -- :355
+      match coerceDependants lg C W s1 f with
+      | (s2, true) => (if lg then s2 else s, .err .parse)         -- :363-369
+      | (s2, false) => (s2, .ok none)
 
-/-- `Schema.__setitem__`, schema.py:350-371 -/
+/-- `Schema.__setitem__`, schema.py:371-392 -/
 def setitem (lg : Bool) (C : Cls) (W : World V) (s : State V) (k : String) (v : V) : State V × Res V :=
   if C.opts.immutable then (s, .err .update)
   else match getField C k with
-    | some f => fieldSetter C W s f v
+    | some f => fieldSetter lg C W s f v
     | none =>
-      if C.excluded.contains k then (s, .err .update)             -- :359-362
+      if C.excluded.contains k then (s, .err .update)             -- :380-383
       else match C.opts.addition with
-        | .forbid => (s, .err .parse)                             -- base.py:394-396 ExceedError
-        | .ignore => (s, .ok none)                                -- base.py:397-399, schema.py:366-368
-        | .allow => ({ s with data := s.data.set k v }, .ok none) -- base.py:403-404
+        | .forbid => (s, .err .parse)                             -- base.py:415-417 ExceedError
+        | .ignore => (s, .ok none)                                -- base.py:418-420, schema.py:387-389
+        | .allow => ({ s with data := s.data.set k v }, .ok none) -- base.py:424-425
         | .typed =>
           match W.parseAdd v with
           | none => (s, .err .parse)
-          -- :369 stores the parsed addition (the unrepaired code stored the raw value)
+          -- :390 stores the parsed addition (the unrepaired code stored the raw value)
           | some a => ({ s with data := s.data.set k (if lg then v else a) }, .ok none)
 
-/-- `Schema.__field_deleter__`, schema.py:373-399 -/
+/-- `Schema.__field_deleter__`, schema.py:394-420 -/
 def fieldDeleter (lg : Bool) (C : Cls) (s : State V) (f : Field) : State V × Res V :=
-  if C.opts.immutable || f.immutable then (s, .err .delete)       -- :374-378
-  else if f.required && !C.opts.ignoreRequired then (s, .err .delete)   -- :386-389
+  if C.opts.immutable || f.immutable then (s, .err .delete)       -- :395-399
+  else if f.required && !C.opts.ignoreRequired then (s, .err .delete)   -- :407-410
   else if !s.data.has f.name then
-    (s, if C.opts.ignoreDeleteNonexistent then .ok none else .err .delete)   -- :390-395
+    (s, if C.opts.ignoreDeleteNonexistent then .ok none else .err .delete)   -- :411-416
   else
     let attrs := if lg then (if s.attrs.has f.name then s.attrs.del f.attname else s.attrs)
-                 else s.attrs.del f.attname                       -- :398-399
+                 else s.attrs.del f.attname                       -- :419-420
     ({ data := s.data.del f.name, attrs := attrs }, .ok none)
 
-/-- `Schema.__delitem__`, schema.py:401-410 -/
+/-- `Schema.__delitem__`, schema.py:422-431 -/
 def delitem (lg : Bool) (C : Cls) (s : State V) (k : String) : State V × Res V :=
   if C.opts.immutable then (s, .err .delete)
   else match getField C k with
     | some f => fieldDeleter lg C s f
     | none => if s.data.has k then ({ s with data := s.data.del k }, .ok none) else (s, .err .key)
 
-/-- `Schema.pop`, schema.py:422-445 -/
+/-- `Schema.pop`, schema.py:443-466 -/
 def pop (lg : Bool) (C : Cls) (s : State V) (k : String) (d : Option V) : State V × Res V :=
   if C.opts.immutable then (s, .err .delete)
   else match getField C k with
-    | none =>                                                     -- :429-430 (the default is not passed on)
+    | none =>                                                     -- :450-451 (the default is not passed on)
       match s.data.get k with
       | some v => ({ s with data := s.data.del k }, .ok (some v))
       | none => (s, .err .key)
@@ -235,7 +288,7 @@ def pop (lg : Bool) (C : Cls) (s : State V) (k : String) (d : Option V) : State 
           | some dv => (s, .ok (some dv))
           | none => (s, .err .key)
 
-/-- `Schema.popitem`, schema.py:412-420 -/
+/-- `Schema.popitem`, schema.py:433-441 -/
 def popitem (lg : Bool) (C : Cls) (s : State V) : State V × Res V :=
   if C.opts.immutable then (s, .err .delete)
   else if lg then
@@ -246,7 +299,7 @@ def popitem (lg : Bool) (C : Cls) (s : State V) : State V × Res V :=
     | none => (s, .err .key)
     | some k => pop lg C s k none
 
-/-- the loop of `Schema.update`, schema.py:452-454: stops at the first key that raises -/
+/-- the loop of `Schema.update`, schema.py:473-475: stops at the first key that raises -/
 def setitems (lg : Bool) (C : Cls) (W : World V) : State V → List (String × V) → State V × Res V
   | s, [] => (s, .ok none)
   | s, (k, v) :: kvs =>
@@ -257,19 +310,19 @@ def setitems (lg : Bool) (C : Cls) (W : World V) : State V → List (String × V
 def update (lg : Bool) (C : Cls) (W : World V) (s : State V) (kvs : List (String × V)) : State V × Res V :=
   if C.opts.immutable then (s, .err .update) else setitems lg C W s kvs
 
-/-- `key in self`, schema.py:277-281 -/
+/-- `key in self`, schema.py:288-292 -/
 def contains (C : Cls) (s : State V) (k : String) : Bool :=
   match getField C k with
   | some f => s.data.has f.name
   | none => s.data.has k
 
-/-- `self[key]`, schema.py:309-314 -/
+/-- `self[key]`, schema.py:320-325 -/
 def getitem (C : Cls) (s : State V) (k : String) : Option V :=
   match getField C k with
   | some f => s.data.get f.name
   | none => s.data.get k
 
-/-- `Schema.setdefault`, schema.py:473-482 (before the repair: `dict.setdefault`) -/
+/-- `Schema.setdefault`, schema.py:494-503 (before the repair: `dict.setdefault`) -/
 def setdefault (lg : Bool) (C : Cls) (W : World V) (s : State V) (k : String) (v : V) : State V × Res V :=
   if lg then
     match s.data.get k with
@@ -280,7 +333,7 @@ def setdefault (lg : Bool) (C : Cls) (W : World V) (s : State V) (k : String) (v
     | (s', .err e) => (s', .err e)
     | (s', .ok _) => (s', .ok (some ((getitem C s' k).getD v)))
 
-/-- `Schema.clear`, schema.py:500-517 -/
+/-- `Schema.clear`, schema.py:521-538 -/
 def clear (lg : Bool) (C : Cls) (s : State V) : State V × Res V :=
   if C.opts.immutable then (s, .err .delete)
   else if C.fields.any (fun f => f.immutable || (f.required && !C.opts.ignoreRequired)) then (s, .err .delete)
@@ -290,10 +343,10 @@ def clear (lg : Bool) (C : Cls) (s : State V) : State V × Res V :=
     ({ data := [], attrs := attrs }, .ok none)
 
 /-- attribute assignment `obj.a = v`: a field's attribute is the property installed by
-`assign_properties` (cls.py:312-343); any other name is a plain instance attribute -/
-def setattr (C : Cls) (W : World V) (s : State V) (a : String) (v : V) : State V × Res V :=
+`assign_properties` (cls.py:328-359); any other name is a plain instance attribute -/
+def setattr (lg : Bool) (C : Cls) (W : World V) (s : State V) (a : String) (v : V) : State V × Res V :=
   match fieldByAtt C a with
-  | some f => if f.isProp then (s, .err .attr) else fieldSetter C W s f v    -- getter-only: no setter
+  | some f => if f.isProp then (s, .err .attr) else fieldSetter lg C W s f v    -- getter-only: no setter
   | none => ({ s with attrs := s.attrs.set a v }, .ok none)
 
 def delattr (lg : Bool) (C : Cls) (s : State V) (a : String) : State V × Res V :=
@@ -303,24 +356,32 @@ def delattr (lg : Bool) (C : Cls) (s : State V) (a : String) : State V × Res V 
 
 /-- one public mutating operation on a `Schema` instance -/
 def step (lg : Bool) (C : Cls) (W : World V) (s : State V) : Op V → State V × Res V
-  | .setattr a v => setattr C W s a v
+  | .setattr a v => setattr lg C W s a v
   | .delattr a => delattr lg C s a
   | .setitem k v => setitem lg C W s k v
   | .delitem k => delitem lg C s k
   | .update kvs => update lg C W s kvs
   | .ior kvs =>
     if lg then (kvs.foldl (fun s kv => { s with data := s.data.set kv.1 kv.2 }) s, .ok none)   -- dict.__ior__
-    else update lg C W s kvs                                       -- schema.py:484-487
+    else update lg C W s kvs                                       -- schema.py:505-508
   | .pop k d => pop lg C s k d
   | .popitem => popitem lg C s
   | .setdefault k v => setdefault lg C W s k v
   | .clear => clear lg C s
 
-/-- `Schema.__post_init__`, schema.py:269-275: the properties are computed once, in field order -/
-def postInit (C : Cls) (W : World V) (s : State V) : State V :=
-  (C.fields.filter (·.isProp)).foldl (coerce C W) s
+/-- `Schema.__post_init__`, schema.py:280-286: the properties are computed once, in field order; a result that
+does not convert makes the constructor raise (none: no instance) -/
+def postInitList (C : Cls) (W : World V) : State V → List Field → Option (State V)
+  | s, [] => some s
+  | s, p :: ps =>
+    match coerce false C W s p with
+    | (_, true) => none
+    | (s', false) => postInitList C W s' ps
 
-/-! ### several instances: `copy()` (schema.py:492-498) gives an instance with its own `__dict__` -/
+def postInit (C : Cls) (W : World V) (s : State V) : Option (State V) :=
+  postInitList C W s (C.fields.filter (·.isProp))
+
+/-! ### several instances: `copy()` (schema.py:513-519) gives an instance with its own `__dict__` -/
 
 inductive HOp (V : Type) where
   | on (i : Nat) (op : Op V)
@@ -346,7 +407,7 @@ def htrace (lg : Bool) (C : Cls) (W : World V) : List (State V) → List (HOp V)
 
 /-! ### `DataClass` (attribute-based): only attribute assignment and deletion exist -/
 
-/-- the setter built by `ClassParser.make_setter`, cls.py:259-274 (`raise_error()` at :269: `collect_errors`
+/-- the setter built by `ClassParser.make_setter`, cls.py:275-290 (`raise_error()` at :285: `collect_errors`
 makes no difference) -/
 def dcSetattr (C : Cls) (W : World V) (s : State V) (a : String) (v : V) : State V × Res V :=
   match fieldByAtt C a with
@@ -357,7 +418,7 @@ def dcSetattr (C : Cls) (W : World V) (s : State V) (a : String) (v : V) : State
       | none => (s, .err .parse)
       | some pv => ({ s with attrs := s.attrs.set f.attname pv }, .ok none)
 
-/-- the deleter built by `ClassParser.make_deleter`, cls.py:276-300 -/
+/-- the deleter built by `ClassParser.make_deleter`, cls.py:292-316 -/
 def dcDelattr (C : Cls) (s : State V) (a : String) : State V × Res V :=
   match fieldByAtt C a with
   | none => if s.attrs.has a then ({ s with attrs := s.attrs.del a }, .ok none) else (s, .err .attr)
@@ -375,10 +436,10 @@ def dcStep (C : Cls) (W : World V) (s : State V) : Op V → State V × Res V
 def dcRun (C : Cls) (W : World V) (s : State V) (ops : List (Op V)) : State V :=
   ops.foldl (fun s op => (dcStep C W s op).1) s
 
-/-- the getter built by `ClassParser.make_getter`, cls.py:302-310 -/
+/-- the getter built by `ClassParser.make_getter`, cls.py:318-326 -/
 def dcGetattr (s : State V) (f : Field) : Option V := s.attrs.get f.attname
 
-/-- `name in obj` made by `make_contains(output_only=True)`, cls.py:367-383 -/
+/-- `name in obj` made by `make_contains(output_only=True)`, cls.py:383-399 -/
 def dcContains (C : Cls) (s : State V) (k : String) : Bool :=
   match getField C k with
   | none => false
@@ -386,8 +447,8 @@ def dcContains (C : Cls) (s : State V) (k : String) : Bool :=
 
 /-! ### inheritance: which accessor an attribute name reaches
 
-`ClassParser.assign_properties` (cls.py:312-343) runs for every class (`__init_subclass__`, schema.py:74-91,
-139-155) and installs, for *every* non-property field of that class — declared in its body or taken over from a
+`ClassParser.assign_properties` (cls.py:328-359) runs for every class (`__init_subclass__`, schema.py:74-91,
+145-161) and installs, for *every* non-property field of that class — declared in its body or taken over from a
 base by `generate_from_bases` (cls.py:223-257) — a property whose setter / deleter / getter close over that
 class's own field object and (DataClass) that class's own options.  Python then finds the accessor along the
 MRO, most derived class first. -/
@@ -398,7 +459,7 @@ structure Accessor where
   opts    : Opts
   deriving Repr, DecidableEq
 
-/-- the loop of `assign_properties`: no field is skipped except the `@property` ones (:321-323) -/
+/-- the loop of `assign_properties`: no field is skipped except the `@property` ones (:337-339) -/
 def assignProperties (C : Cls) : List Accessor :=
   (C.fields.filter (fun f => !f.isProp)).map (fun f => { attname := f.attname, field := f, opts := C.opts })
 
@@ -410,14 +471,14 @@ def resolveAccessor : List (List Accessor) → String → Option Accessor
     | some x => some x
     | none => resolveAccessor ts a
 
-/-- the body of the setter closure of `make_setter` (cls.py:260-274) for the accessor that was found -/
+/-- the body of the setter closure of `make_setter` (cls.py:276-290) for the accessor that was found -/
 def accessorSet (W : World V) (s : State V) (x : Accessor) (v : V) : State V × Res V :=
   if x.opts.immutable || x.field.immutable then (s, .err .update)
   else match W.parse x.field.name v with
     | none => (s, .err .parse)
     | some pv => ({ s with attrs := s.attrs.set x.field.attname pv }, .ok none)
 
-/-- the body of the deleter closure of `make_deleter` (cls.py:277-300) -/
+/-- the body of the deleter closure of `make_deleter` (cls.py:293-316) -/
 def accessorDel (s : State V) (x : Accessor) : State V × Res V :=
   if x.opts.immutable || x.field.immutable then (s, .err .delete)
   else if x.field.required && !x.opts.ignoreRequired then (s, .err .delete)
@@ -435,13 +496,13 @@ def dcDelattrVia (mro : List (List Accessor)) (s : State V) (a : String) : State
   | some x => accessorDel s x
   | none => if s.attrs.has a then ({ s with attrs := s.attrs.del a }, .ok none) else (s, .err .attr)
 
-/-- `obj.a = v` on a Schema instance: the accessor is `partial(__field_setter__, field=…)` (cls.py:329-331);
-the options are the instance's own (schema.py:317) -/
+/-- `obj.a = v` on a Schema instance: the accessor is `partial(__field_setter__, field=…)` (cls.py:345-347);
+the options are the instance's own (schema.py:328) -/
 def setattrVia (mro : List (List Accessor)) (C : Cls) (W : World V) (s : State V) (a : String) (v : V) :
     State V × Res V :=
   match resolveAccessor mro a with
-  | some x => fieldSetter C W s x.field v
-  | none => setattr C W s a v
+  | some x => fieldSetter false C W s x.field v
+  | none => setattr false C W s a v
 
 /-! ### which options an instance carries
 
@@ -450,7 +511,7 @@ class (at its construction or by a later assignment through the parent's setter 
 `transform_dataclass` (cls.py) calls `init_dataclass(cls, data, context=…)` with the enclosing context, and
 `Options.make_context` (options.py:251-258) picks the options of the new context: the class's own, unless the
 enclosing options say `override` and the own do not (documented: "otherwise the data class parses with its own
-Options").  `Schema.__post_init__` keeps them as `self.__options__` (schema.py:271). -/
+Options").  `Schema.__post_init__` keeps them as `self.__options__` (schema.py:282). -/
 
 /-- `Options.make_context`, options.py:251-258 -/
 def contextOptions (own : Opts) (enclosing : Option Opts) : Opts :=
@@ -459,15 +520,15 @@ def contextOptions (own : Opts) (enclosing : Option Opts) : Opts :=
   | some c => if !own.override && c.override then c else own
 
 /-- what the mutators of a Schema instance consult: `self.__options__` for immutable / ignore_required /
-ignore_delete_nonexistent (schema.py:317, 374, 386, 391, 413, 423, 448, 501), the class parser's own options
-for additions (`self.__parser__.make_context`, schema.py:323, 363) -/
+ignore_delete_nonexistent (schema.py:328, 395, 407, 412, 434, 444, 469, 522), the class parser's own options
+for additions (`self.__parser__.make_context`, schema.py:334, 384) -/
 def instanceOpts (own : Opts) (enclosing : Option Opts) : Opts :=
   { contextOptions own enclosing with addition := own.addition }
 
 /-- the declaration a (possibly nested) Schema instance is governed by -/
 def instanceCls (C : Cls) (enclosing : Option Opts) : Cls := { C with opts := instanceOpts C.opts enclosing }
 
-/-- a DataClass accessor closes over its class parser's options (cls.py:261, 278): nesting changes nothing -/
+/-- a DataClass accessor closes over its class parser's options (cls.py:277, 294): nesting changes nothing -/
 def dcInstanceCls (C : Cls) (_enclosing : Option Opts) : Cls := C
 
 /-- the table the model above rests on: which `dict` mutators `Schema` defines itself (T1 table,
